@@ -504,22 +504,76 @@ end PvProofs.Settle
 namespace PvProofs.C01
 open PvModel PvModel.Settle PvProofs.Settle
 
+/-- the price denom the seller ratio is looked up for: that of the first ask, before or after `splitPartial`
+(a split changes only assets, price and fees) -/
+theorem plan_head_priceDenom {asks bids : List Order} {lookup : Denom → Except Err (Option Ratio)} {p : Plan}
+    (hp : plan asks bids lookup = .ok p) :
+    (p.asks.headD default).priceDenom = (asks.headD default).priceDenom := by
+  rcases at_most_one_partial hp with ⟨a, _, _⟩ | ⟨init, o, f, u, a1, a2, _, _, _, a6⟩ | ⟨_, _, _, _, _, _, a3, _⟩
+  · rw [a]
+  · obtain ⟨_, _, _, _, hpd, _⟩ := (split_exact a6).2.2.2.1
+    rw [a1, a2]
+    cases init with
+    | nil => simpa using hpd
+    | cons x t => rfl
+  · rw [a3]
+
 /-- **Checker soundness for `BuildSettlement`.**  For a request in the property's domain (stored
 orders, distinct ids) and a valid seller ratio, whatever `buildSettlement` returns passes every clause
-of the checker the driver runs on the implementation's output. -/
+of the checker the driver runs on the implementation's output.  The ratio is the one the lookup
+returns **for the price denom of the request** (that of its first ask) — nothing is assumed about
+other denoms, so the keeper's own `getSellerSettlementRatio` (which fails for every other denom when
+the market has ratios) satisfies the hypothesis: see `msgMarketSettle_checker_sound`. -/
 theorem buildSettlement_checker_sound {asks bids : List Order} {lookup : Denom → Except Err (Option Ratio)}
     {s : Settlement} {ratio : Option Ratio} (h : buildSettlement asks bids lookup = .ok s)
-    (hdom : inDomain asks bids = true) (hlk : ∀ d, lookup d = .ok ratio)
+    (hdom : inDomain asks bids = true) (hlk : lookup (asks.headD default).priceDenom = .ok ratio)
     (hr : ∀ r, ratio = some r → 0 < r.priceAmt ∧ 0 ≤ r.feeAmt) :
     settlementViolation asks bids ratio s = none := by
   obtain ⟨p, hp, hs⟩ := buildSettlement_eq.mp h
   simp only [inDomain, Bool.and_eq_true, List.all_eq_true, decide_eq_true_eq] at hdom
-  exact settlement_checker_sound hp hs hdom.2 (fun o ho => orderPos_of_valid (hdom.1 o ho)) (hlk _) hr
+  exact settlement_checker_sound hp hs hdom.2 (fun o ho => orderPos_of_valid (hdom.1 o ho))
+    (by rw [plan_head_priceDenom hp]; exact hlk) hr
 
 /-- non-vacuity: the example request of `C01Examples` satisfies the hypotheses -/
 example : inDomain
     [⟨1, true, "S1", "apple", 10, "usd", 100, [("usd", 2)], false⟩, ⟨2, true, "X1", "apple", 5, "usd", 50, [("fig", 1)], true⟩]
     [⟨11, false, "B1", "apple", 6, "usd", 66, [("fig", 3)], false⟩, ⟨12, false, "X1", "apple", 4, "usd", 48, [], false⟩,
      ⟨13, false, "B2", "apple", 10, "usd", 120, [("fig", 10), ("usd", 20)], true⟩] = true := by decide
+
+/-- whatever the keeper's `getSellerSettlementRatio` returns without error is the market's ratio -/
+theorem lookup_ok {s : KState} {d : Denom} {ratio : Option Ratio} (h : s.lookup d = .ok ratio) : ratio = s.ratio := by
+  unfold KState.lookup at h
+  split at h
+  · rename_i hn; rw [hn]; simpa using h.symm
+  · rename_i r hr'
+    split at h
+    · rw [hr']; simpa using h.symm
+    · simp at h
+
+/-- the keeper's lookup satisfies the hypothesis of `buildSettlement_checker_sound` (at the request's
+price denom) and NOT the former `∀ d, lookup d = .ok ratio` (it fails at every other denom) -/
+example : (⟨some ⟨"usd", 1000, "usd", 3⟩, [], 0, 1, [], []⟩ : KState).lookup "usd" = .ok (some ⟨"usd", 1000, "usd", 3⟩) ∧
+    ¬ ∃ ratio, ∀ d, (⟨some ⟨"usd", 1000, "usd", 3⟩, [], 0, 1, [], []⟩ : KState).lookup d = .ok ratio := by
+  refine ⟨by decide, ?_⟩
+  rintro ⟨ratio, h⟩
+  have h1 := h "fig"
+  simp [KState.lookup] at h1
+
+/-- **The settlement checker is sound for every accepted `MsgMarketSettle` of every reachable state.**
+In a state whose order store satisfies `StoreInv` (`history_invariant`) and whose market ratio is
+valid (`FeeRatio.Validate`), the settlement the keeper builds for an accepted message passes every
+clause of `settlementViolation` with the market's own ratio: no hypothesis on the request or on the
+lookup is left. -/
+theorem msgMarketSettle_checker_sound {s s' : KState} {m c : Addr} {a b : List Nat} {ep : Bool}
+    (hI : StoreInv s) (hr : ∀ r, s.ratio = some r → 0 < r.priceAmt ∧ 0 ≤ r.feeAmt)
+    (h : s.msgMarketSettle m c a b ep = .ok s') :
+    ∃ asks bids st, s.getOrders true a "" = .ok asks ∧ s.getOrders false b "" = .ok bids ∧
+      buildSettlement asks bids s.lookup = .ok st ∧ settlementViolation asks bids s.ratio st = none := by
+  obtain ⟨asks, bids, st, L, ha, hb, hst, _, _, _, hv, hid⟩ := msgMarketSettle_covered hI h
+  obtain ⟨p, hp, hs⟩ := buildSettlement_eq.mp hst
+  obtain ⟨_, ratio, hlk, _⟩ := fee_formula hp
+  have hrr := lookup_ok hlk
+  subst hrr
+  exact ⟨asks, bids, st, ha, hb, hst, settlement_checker_sound hp hs hid hv hlk hr⟩
 
 end PvProofs.C01
